@@ -1216,7 +1216,7 @@ def run(ctx):
     for c in corpus_cases():
         bundles.append(c)
         ctx.count("stream:corpus")
-    n_pairs = ctx.n(160, 3500)
+    n_pairs = ctx.n(160, 3000)
     n_codes = ctx.n(5, 12)
     n_bad = ctx.n(60, 700)
     wf_pairs = []
@@ -1240,7 +1240,7 @@ def run(ctx):
         bundles.append({"old": old, "new": new, "codes": sample_codes(ctx, max(3, n_codes // 2)), "stream": "malformed"})
 
     # SQLite-backed sides built through histories (the model index is the FINAL key -> entry map)
-    n_disk = ctx.n(30, 450)
+    n_disk = ctx.n(30, 300)
     for old, new in wf_pairs[:n_disk]:
         if old is None and new is None:
             continue
@@ -1262,7 +1262,7 @@ def run(ctx):
 
     # lazily loaded directory entries (object storage in the storage map), mounted at the root key or below
     lazy_main = []
-    for _ in range(ctx.n(26, 400)):
+    for _ in range(ctx.n(26, 250)):
         bs = gen_lazy_bundles(ctx, max(3, n_codes // 2))
         bundles += bs
         lazy_main += bs[:1]
